@@ -29,16 +29,35 @@ def generate(repo):
     if not m:
         raise ExtractError("qmail-lspawn.c: report() not found")
     body = m.group(1)
-    mc = re.search(r"if \(wait_crashed\(wstat\)\)\s*\{\s*substdio_puts\(ss,\"(.)[^\"]*\"\);\s*return;\s*\}", body)
+    mc = re.search(r"if \(wait_crashed\(wstat\)\)\s*\{\s*substdio_puts\(ss,\"(.)([^\"]*)\"\);\s*return;\s*\}", body)
     if not mc:
         raise ExtractError("qmail-lspawn.c: report(): wait_crashed branch not recognised")
     crashed = ord(mc.group(1))
+
+    def ctext(t):
+        """bytes of a C string literal body; only the escape \\n is recognised"""
+        out, i = [], 0
+        while i < len(t):
+            if t[i] == "\\":
+                if t[i + 1:i + 2] != "n":
+                    raise ExtractError("report(): unrecognised escape in %r" % t)
+                out.append(10); i += 2
+            else:
+                if ord(t[i]) > 126 or ord(t[i]) < 32:
+                    raise ExtractError("report(): non-ASCII text %r" % t)
+                out.append(ord(t[i])); i += 1
+        return out
+    crashed_text = ctext(mc.group(1) + mc.group(2))
+    texts = []
     ms = re.search(r"switch\(wait_exitcode\(wstat\)\)\s*\{(.*?)\n  \}", body, re.S)
     if not ms:
         raise ExtractError("qmail-lspawn.c: report(): switch not recognised")
     sw = ms.group(1)
+    tail = body[ms.end():]
+    if not re.fullmatch(r"\s*for \(i = 0;i < len;\+\+i\) if \(!s\[i\]\) break;\s*substdio_put\(ss,s,i\);\s*", tail):
+        raise ExtractError("qmail-lspawn.c: report(): text after the switch not recognised: %r" % tail.strip()[:80])
     # tokens: case labels, default label, the two statement shapes
-    tok = re.compile(r"case\s+([A-Za-z_0-9]+)\s*:|(default)\s*:|substdio_puts\(ss,\"(.)[^\"]*\"\);\s*return;"
+    tok = re.compile(r"case\s+([A-Za-z_0-9]+)\s*:|(default)\s*:|substdio_puts\(ss,\"(.)([^\"]*)\"\);\s*return;"
                      r"|substdio_put\(ss,\"(.)\",1\);\s*break;")
     pos, labels, cases, default = 0, [], [], None
     rest = tok.sub("", sw)
@@ -56,7 +75,7 @@ def generate(repo):
         elif t.group(2):
             labels.append("default")
         else:
-            ch, fixed = (t.group(3), True) if t.group(3) else (t.group(4), False)
+            ch, fixed = (t.group(3), True) if t.group(3) else (t.group(5), False)
             if not labels:
                 raise ExtractError("report(): statement without a case label")
             for l in labels:
@@ -64,6 +83,8 @@ def generate(repo):
                     default = (ord(ch), fixed)
                 else:
                     cases.append((l, ord(ch), fixed))
+                    if fixed:
+                        texts.append((l, ctext(t.group(3) + t.group(4))))
             labels = []
     if labels or default is None:
         raise ExtractError("report(): dangling labels or no default")
@@ -89,6 +110,9 @@ def generate(repo):
     out += "\n/-- qmail-lspawn.c report(): exit code ↦ (first byte of the report, report is a fixed text) -/\n"
     out += "def reportCases : List (Nat × UInt8 × Bool) :=\n  [" + ", ".join(
         "(%d, %d, %s)" % (c, ch, "true" if f else "false") for c, ch, f in cases) + "]\n"
+    out += "/-- the whole text of the fixed reports -/\ndef reportTexts : List (Nat × List UInt8) :=\n  [" + ",\n   ".join(
+        "(%d, [%s])" % (c, ", ".join(map(str, tx))) for c, tx in texts) + "]\n"
+    out += "def reportCrashedText : List UInt8 := [%s]\n" % ", ".join(map(str, crashed_text))
     out += "def reportDefault : UInt8 := %d\n" % default[0]
     out += "def reportCrashed : UInt8 := %d\n" % crashed
     out += "def GETPW_USERLEN : Nat := %d\n" % userlen
